@@ -1,7 +1,7 @@
 #!/venv/bin/python
 """Evaluate seeded property-breaking changes (seeded/<id>/patch.diff) against the checks.
 
-usage: tools/seedcheck.py seeded/<id> [--checks C01,C07] [--thorough]
+usage: tools/seedcheck.py seeded/<id> [--checks C01,C07] [--only C05] [--thorough]
 
 The patch is applied to a scratch copy of /repo's pytato under $TMPDIR (never to /repo);
 the property's own check (meta.json "property") runs first in the quick tier, then -- if it
@@ -57,7 +57,17 @@ def main() -> int:
             line = next((ln for ln in rr.stdout.splitlines()
                          if ln.startswith(("VIOLATED", "OK"))), rr.stdout[-120:])
             result["demonstration_on_patched"] = line[:200]
-        for check in [prop, *[c for c in extra if c != prop]]:
+        checks = [prop, *[c for c in extra if c != prop]]
+        if "--only" in sys.argv:
+            # keep what result.json already records for the other checks
+            checks = sys.argv[sys.argv.index("--only") + 1].split(",")
+            try:
+                old = json.load(open(os.path.join(d, "result.json")))
+                result.update({k: v for k, v in old.items() if k not in checks
+                               and isinstance(v, dict)})
+            except Exception:  # noqa: BLE001
+                pass
+        for check in checks:
             fired, keys, rc = run(check, "quick", scratch)
             tier = "quick"
             if not fired and ("--thorough" in sys.argv or check == prop):
